@@ -90,7 +90,8 @@ class C04(props.Prop):
                 text, k = gen_input.damage(
                     rng, text,
                     rng.choice(['del_tok', 'del_sub', 'dup_tok', 'swap',
-                                'empty_list', 'del_many', 'bare_top']))
+                                'empty_list', 'del_many', 'bare_top',
+                                'odd_index', 'odd_index']))
                 dmg.append(k)
         elif kind == 'unbalanced':
             text, k = gen_input.damage(
